@@ -59,6 +59,9 @@ def c02_streams(run, tier, seed):
             src = f"{org}.macro m(v) {{\nv = 0x{b:x}\n{mn} v\nafter:\n.dw after\n}}\nm(0x{a:x})\nend:\n"
         elif pat == 4:
             src = f"{org}dup:\n.db 1\ndup:\n.db 2\n.dw dup\nend:\n"
+        elif pat == 5 and i % 12 == 5:
+            # a label whose name already has a value in the same scope: the label's address must win
+            src = f"{org}h := 0x{b:x}\nnop\nh:\n.dl h\n.scope v {{\nr := 0\nnop\nr:\n}}\n.dl v.r\nend:\n"
         else:
             src = f"{org}x := 0x{a:x}\n{{\nx = 0x{b:x}\n{mn} x\nbar:\n.dw 0xbeef\n.dl bar\n}}\nend:\n"
         progs.append(raw(rom, src))
@@ -136,11 +139,14 @@ def c05_streams(run, tier, seed):
                 pad = rng.randrange(0, 6)
                 off = {"start": winstart, "mid": rng.randrange(winstart + 0x400, 0xF000), "end": 0x10000 - pad - 2 - rng.randrange(0, 3)}[place]
                 base = (bank << 16) | off
-                reloc = rng.choice(["none", "none", "rom", "ram", "ram-target"])
+                reloc = rng.choice(["none", "none", "rom", "rom0", "ram", "ram-target"])
                 lines = [f"*=0x{base:06x}"]
                 if reloc == "rom":
                     rb = ((bank + 1) << 16) | rng.randrange(winstart + 0x400, 0xF000)
                     lines += [".db 1,2,3", f"@=0x{rb:06x}"]
+                elif reloc == "rom0":
+                    # relocation to the address whose mapped offset is 0, after the position has moved elsewhere
+                    lines += [".db 1,2,3", "@=0x008000" if rom == "low_rom" else "@=0xc00000"]
                 elif reloc == "ram":
                     lines += [".db 1,2,3", f"@=0x{0x7E0000 + rng.randrange(0x8000):06x}"]
                 lines.append("L:")
@@ -222,7 +228,7 @@ def c07_streams(run, tier, seed):
             ln = rng.choice([0, 1, 2, 20, 40])
             bins["blob.bin"] = bytes(rng.randrange(256) for _ in range(ln))
             extra = ".incbin 'blob.bin'\nafterbin:\n.dw blob_bin__size\n.dl blob_bin\n"
-        txt = "".join(rng.choice("abc XYZ09é") for _ in range(rng.randrange(0, 6)))
+        txt = "".join(rng.choice(["a", "b", "c", " ", "X", "Y", "Z", "0", "9", "é", "\\'"]) for _ in range(rng.randrange(0, 6)))
         src = f"*=0x{base:06x}\nstart:\n.{kind} " + ", ".join(items) + f"\nafter:\n.ascii '{txt}'\nafter2:\n{extra}end:\n"
         progs.append(raw("low_rom", src, bins=bins, meta=(kind, n, base, total, txt)))
     for pr, r, m in run.run(progs):
@@ -251,7 +257,27 @@ def c07_streams(run, tier, seed):
         else:
             s.violate({"src": pr["src"]}, "assembled", r.get("exc") or r.get("error"), "a valid data program is rejected")
     s.sample({"src": progs[0]["src"]})
-    return [s]
+    # values of symbol references: the innermost definition visible where the directive stands
+    s2 = core.Stream("S4-data-references", "data directives whose operands name a symbol that also has an outer := constant of the same name (loop variable, inner label, macro parameter bound to a forward label): expected bytes written out by hand")
+    fam = []
+    for k in range(10 if tier == "quick" else 100):
+        c = rng.randrange(4, 200)
+        cnt = rng.randrange(1, 4)
+        lo = rng.randrange(0, 3)
+        fam.append((f"*=0x008000\nn := {c}\n.for n := {lo}, {lo + cnt} {{\n.db n\n}}\n", bytes(range(lo, lo + cnt))))
+        fam.append((f"*=0x008000\nv := {c}\n.db 0\n{{\nv:\n.dw v\n}}\n", b"\x00\x01\x80"))
+        fam.append((f"*=0x008000\nq := {c}\n.macro m(q) {{\n.dw q\n}}\nm(fwd)\nfwd:\n", b"\x02\x80"))
+        fam.append((f"*=0x008000\nw := {c}\n.dw w\n{{\nw = {c + 1}\n.dw w\n}}\n.dw w\n", c.to_bytes(2, "little") + (c + 1).to_bytes(2, "little") + c.to_bytes(2, "little")))
+    progs2 = [raw("low_rom", src, meta=exp) for src, exp in fam]
+    for pr, r, m in run.run(progs2):
+        s2.cases += 1
+        s2.nontrivial.add(pr["src"][:40])
+        run.correspond(s2, pr, r, m)
+        data = b"".join(b for _, b in r["blocks"]) if r["status"] == "ok" else None
+        if data != pr["meta"]:
+            s2.violate({"src": pr["src"]}, pr["meta"].hex(), data.hex() if data is not None else r.get("exc"), "data directive does not emit the value of the innermost visible definition of its operand")
+    s2.sample({"src": fam[0][0], "expected": fam[0][1].hex()})
+    return [s, s2]
 
 
 SPECIFIC = {"C02": c02_streams, "C03": c03_streams, "C05": c05_streams, "C07": c07_streams}
@@ -263,6 +289,12 @@ def run_prop(prop, ctx):
     try:
         streams = [general_stream(run, prop, tier, seed, 150, 3000)]
         streams += SPECIFIC[prop](run, tier, seed)
+        if prop == "C02":
+            # the position-heavy programs also exercise "actually placed": label address <-> file offset
+            for st in c03_streams(run, tier, seed):
+                st.name += "(C02 oracle)"
+                st.violations = [v for v in st.violations if "label" in v["what"]]
+                streams.append(st)
         return streams
     finally:
         run.close()
